@@ -106,6 +106,45 @@ def lonlat_footprint_validity(prog: Program) -> List[Instance]:
                      f"`{short(n, 70)}` intersects raw lon/lat footprints: for a polar-stereographic raster containing the pole, or a raster reaching the antimeridian, the ring is invalid and GEOS raises TopologyException instead of a dependency graph", f.where(n))]
 
 
+def footprint_sampling(prog: Program) -> List[Instance]:
+    """C11: the enclosing grid is the bounding box of the source footprint sampled with a fixed number of
+    points per side. A projected edge is a curve; its extreme lies between two samples, and the shortfall is
+    fixed in CRS units, so in output pixels it grows with the raster (4 px for a 100k px continental raster
+    against a promised 0.01 px)."""
+    f = prog.func("overlap:compute_output_geobox")
+    out: List[Instance] = []
+    for n in walk_own(f.node):
+        if isinstance(n, ast.Call) and call_name(n) == "footprint":
+            np_ = next((k.value for k in n.keywords if k.arg == "npoints"), n.args[2] if len(n.args) > 2 else None)
+            lit = np_ is None or const_num(np_) is not None
+            out.append(Instance("R-GUARDSEQ", f"{f.qual}#footprint-sampling", BAD if lit else OK,
+                                f"`{short(n, 60)}`: the number of footprint samples per side is a constant, independent of the raster's size in pixels: for rasters beyond ~60k px per side rows/columns of source pixel centres project 1.5-4 output pixels outside the computed grid" if lit
+                                else f"`{short(n, 60)}` adapts the footprint sampling to the raster", f.where(n)))
+    if not out:
+        out.append(Instance("R-GUARDSEQ", f"{f.qual}#footprint-sampling", INFO, "no footprint() call", f.where(), nontrivial=False))
+    return out[:1]
+
+
+def region_densification(prog: Program) -> List[Instance]:
+    """C08: from_geopolygon projects the region after densifying it with the relative 'auto' step (about 25
+    segments per side), whatever the requested pixel size or tol: the bounding box of the projected ring is
+    short by the sagitta of one segment, a fixed length that is many pixels at fine resolutions."""
+    f = prog.func("geobox:GeoBox.from_geopolygon")
+    out: List[Instance] = []
+    for n in walk_own(f.node):
+        if isinstance(n, ast.Call) and call_name(n) == "to_crs":
+            r = next((k.value for k in n.keywords if k.arg == "resolution"), None)
+            if r is None:
+                continue
+            lit = isinstance(r, ast.Constant)
+            out.append(Instance("R-GUARDSEQ", f"{f.qual}#densify-vs-pixel", BAD if lit else OK,
+                                f"`{short(n, 60)}`: the densification step does not depend on the requested resolution/tol: a lon/lat box over Europe at 10 m in EPSG:3035 sticks out of the grid by 6.8 pixels (tol promises 0.01)" if lit
+                                else f"`{short(n, 60)}` ties the densification to the requested grid", f.where(n)))
+    if not out:
+        out.append(Instance("R-GUARDSEQ", f"{f.qual}#densify-vs-pixel", INFO, "region is not re-projected with a densification step", f.where(), nontrivial=False))
+    return out[:1]
+
+
 def _ancestors(n: ast.AST, stop: ast.AST):
     p = parent(n)
     while p is not None and p is not stop:
